@@ -87,6 +87,29 @@ def flat_state(state):
   return [np.asarray(x) for x in jax.tree.leaves(state)]
 
 
+def state_paths(state):
+  import jax
+  return [jax.tree_util.keystr(p) for p, _ in jax.tree_util.tree_flatten_with_path(state)[0]]
+
+
+def leaf_policy(path):
+  """Diagnostics that measure float32 rounding noise of the Newton iteration (final error ~1e-7, the ratio of the
+  last two errors, the iteration count) are not numerically meaningful to 1e-5 relative: the error is compared
+  absolutely, the other two are not compared."""
+  if "training_metrics" in path:
+    if path.endswith("final_error_ratio") or path.endswith("inverse_pth_root_iters"):
+      return "skip"
+    if path.endswith("inverse_pth_root_errors") or "diagnostics" in path:
+      return "abs"
+  return "rel"
+
+
+def close_abs(a, b, atol=1e-5):
+  if a.shape != b.shape:
+    return False
+  return bool(np.all(np.abs(a.astype(np.float64) - b.astype(np.float64)) <= atol))
+
+
 TOL = 2e-5
 _REC = [None]
 
@@ -132,6 +155,7 @@ def run_pmap(item, seed, rec):
       rec.violation("crash:%s" % where, "D=%d N=%d rep=%s raised %s: %s" % (D, item["N"], item["rep"], type(e).__name__, str(e)[:200]), wit)
       return
     leaves = flat_state(st)        # each has leading device axis D
+    paths = state_paths(st)
     rec.count("runs")
     rec.case("%s|%s|%d|pmap" % (item["N"], item["rep"], D), D >= 2, sample=wit if D == 3 else None)
     if item["N"] % D != 0:
@@ -155,16 +179,24 @@ def run_pmap(item, seed, rec):
                 np.max(np.abs(u[k][d].astype(np.float64) - base_u[t][k][0])) / max(np.max(np.abs(base_u[t][k][0])), 1e-30)), wit)
             return
     for i, x in enumerate(leaves):
+      pol = leaf_policy(paths[i])
+      if pol == "skip":
+        rec.count("noise_diagnostics_not_compared")
+        continue
       for d in range(D):
         rec.count("state_leaves_compared")
-        ok0, bit0 = close(x[d], x[0])
-        ok1, bit1 = close(x[d], base_s[i])
+        if pol == "abs":
+          ok0, bit0 = close_abs(x[d], x[0]), np.array_equal(x[d], x[0])
+          ok1, bit1 = close_abs(x[d], base_s[i]), np.array_equal(x[d], base_s[i])
+        else:
+          ok0, bit0 = close(x[d], x[0])
+          ok1, bit1 = close(x[d], base_s[i])
         rec.count("state_bitwise" if (bit0 and bit1) else "state_not_bitwise")
         if not ok0:
-          rec.violation("devices-disagree:state", "D=%d N=%d rep=%s: state leaf %d on device %d differs from device 0" % (D, item["N"], item["rep"], i, d), wit)
+          rec.violation("devices-disagree:state", "D=%d N=%d rep=%s: state leaf %s on device %d differs from device 0" % (D, item["N"], item["rep"], paths[i], d), wit)
           return
         if not ok1:
-          rec.violation("differs-from-single-device:state", "D=%d N=%d (N mod D = %d) rep=%s: final state leaf %d differs from the 1-device run" % (D, item["N"], item["N"] % D, item["rep"], i), wit)
+          rec.violation("differs-from-single-device:state", "D=%d N=%d (N mod D = %d) rep=%s: final state leaf %s differs from the 1-device run" % (D, item["N"], item["N"] % D, item["rep"], paths[i]), wit)
           return
 
 
